@@ -518,6 +518,12 @@ def gen_dynamic(r, sizes, tmpdir, n_random):
             e = form.replace("%s", href)
             out.append(("dynamic:document:" + name, tmpl("<xsl:value-of select=\"count(%s)\"/>[<xsl:copy-of select=\"%s\"/>]" % (e, e), "xml"), DOC,
                         False if name == "good" and form.count("%s") == 1 and "@n" not in form else None))
+    # relative references whose '../' chain climbs to and ABOVE the root of the base URI's path (XalanParsedURI::resolve;
+    # seed C03_e): resolved against the base of a document loaded by an absolute file: URL
+    for k in (1, 2, 3, 4, 5, 6, 8, 12, 40):
+        for tail in ("none.xml", "./x/../none.xml"):     # not "": a directory URL is the class of K-C03e-3 (leak inside Xerces-C)
+            e = "document('%s%s', document('file://%s'))" % ("../" * k, tail, good)
+            out.append(("dynamic:document:dotdot-above-root", tmpl("<xsl:value-of select=\"count(%s)\"/>" % e, "xml"), DOC, None))
     for encname in BAD_ENCODING + ["UTF-8", "UTF-16", "us-ascii", "ISO-8859-1", "windows-1252", "UTF-32", "Shift_JIS", "EUC-JP", "IBM037", "KOI8-R", "Big5"]:
         for meth in ("xml", "html", "text"):
             out.append(("dynamic:encoding", tmpl("<r q='&#233;&#x20AC;&#x10000;'>&#233;&#x20AC;&#x10000;&#xFFFD;<xsl:comment>&#x20AC;</xsl:comment><xsl:processing-instruction name='p'>&#x20AC;</xsl:processing-instruction></r>",
@@ -631,6 +637,10 @@ def import_cycles(tmpdir):
         out.append(("graphs:%s-ill-formed" % kind, HEAD + "<xsl:%s href='%s'/><xsl:template match='/'>x</xsl:template>" % (kind, ill) + TAIL, True))
         notxsl = put("notxsl_%s.xsl" % kind, "<html><body/></html>")
         out.append(("graphs:%s-not-a-stylesheet" % kind, HEAD + "<xsl:%s href='%s'/><xsl:template match='/'>x</xsl:template>" % (kind, notxsl) + TAIL, None))
+    for kind in ("import", "include"):
+        for k in (2, 4, 8, 40):
+            up = put("up%d_%s.xsl" % (k, kind), HEAD + "<xsl:%s href='%snone.xsl'/><xsl:template match='/'>x</xsl:template>" % (kind, "../" * k) + TAIL)
+            out.append(("graphs:%s-dotdot-above-root" % kind, HEAD + "<xsl:%s href='%s'/><xsl:template match='doc'>y</xsl:template>" % (kind, up) + TAIL, True))
     out.append(("graphs:import-not-first", HEAD + "<xsl:template match='/'>x</xsl:template><xsl:import href='file:///nonexistent/x.xsl'/>" + TAIL, True))
     out.append(("graphs:document-of-self-as-stylesheet", tmpl("<xsl:value-of select=\"count(document('')//xsl:template)\"/>"), None))
     return out
